@@ -56,7 +56,8 @@ impl UStr {
         let colour = |rng: &mut Rng| -> Vec<u16> {
             let mut v = vec![0x1b];
             for _ in 0 .. 3 {
-                v.push(if ucs2 { rng.range(1, 255) as u16 } else { rng.range(1, 255) as u16 });
+                // a colour component may be zero where a zero does not end the string (UCS-2 units)
+                v.push(if ucs2 && rng.chance(1, 4) { 0 } else { rng.range(1, 255) as u16 });
             }
             v
         };
